@@ -25,7 +25,7 @@ func init() {
 			"(e) each refresh function passes its cancel loop over [FirstSlotOfEpoch(epoch), FirstSlotOfEpoch(epoch+1)) before it re-schedules, and the attester refresh re-creates the current slot's job only if that job was actually cancelled; " +
 			"(f) checkEventForReorg stores epoch and both dependent roots on every path and starts the change handlers under comparisons of stored with received roots; (g) the epoch ticker tests and records latestEpochRan in one critical section before it schedules anything; " +
 			"(h) every scheduling call made at start-up passes notCurrentSlot = true or !waitedForGenesis; (i) the fork epochs used are the fetched ones (shared with C15.g); (j) MergeDuties appends the three per-slot arrays together (index spaces). " +
-			"Added with the third seeding round: (l) the scheduler's job-name test and insert are one critical section inside the scheduling function itself (the controller's one-job-per-slot relies on it); (m) the chain time service truncates elapsed time, it never rounds. Added with the fourth seeding round: (n) a clock reading compared with slots is not older than a beacon-node request between reading and comparison; (o) contexts handed to goroutines or the scheduler are not cancelled by the function (or its callers) that hands them over; (p) the controller cancels jobs by full name only. Added with the fifth seeding round: (j, extended) what NewDuty receives from MergeDuties is each collection's entry for the duty's slot, never a collection filled across slots; (q) whether the slot under way is scheduled again is never decided from the wall clock. Added with the sixth seeding round and the false-alarm regression: (r) a job that prepares an epoch is named after that epoch; (s) the state of the once-per-epoch guard is created outside the tick function; (t) a table of which callers of the sync committee scheduling leave out the slot under way (Altair fork epoch: included; start-up: left out). Added with the seventh seeding round: (u) the loops that schedule proposal and attestation duties have no early exit; (v) at start-up and at the Altair fork the next sync committee period is set up when its distance is <= the preparation window. NOT decided: agreement of StartOfSlot/CurrentSlot/SlotToEpoch for all chain parameters (numeric), exactly-one job per slot across concurrent refreshes (interleavings, C02), completeness of the beacon node's duties.",
+			"Added with the third seeding round: (l) the scheduler's job-name test and insert are one critical section inside the scheduling function itself (the controller's one-job-per-slot relies on it); (m) the chain time service truncates elapsed time, it never rounds. Added with the fourth seeding round: (n) a clock reading compared with slots is not older than a beacon-node request between reading and comparison; (o) contexts handed to goroutines or the scheduler are not cancelled by the function (or its callers) that hands them over; (p) the controller cancels jobs by full name only. Added with the fifth seeding round: (j, extended) what NewDuty receives from MergeDuties is each collection's entry for the duty's slot, never a collection filled across slots; (q) whether the slot under way is scheduled again is never decided from the wall clock. Added with the sixth seeding round and the false-alarm regression: (r) a job that prepares an epoch is named after that epoch; (s) the state of the once-per-epoch guard is created outside the tick function; (t) a table of which callers of the sync committee scheduling leave out the slot under way (Altair fork epoch: included; start-up: left out). Added with the seventh seeding round: (u) the loops that schedule proposal and attestation duties have no early exit; (v) at start-up and at the Altair fork the next sync committee period is set up when its distance is <= the preparation window. Added with the tenth seeding round: (a, extended; shared with C15) in scheduleSyncCommitteeMessages no scheduling site is reachable from the subnet subscription call. NOT decided: agreement of StartOfSlot/CurrentSlot/SlotToEpoch for all chain parameters (numeric), exactly-one job per slot across concurrent refreshes (interleavings, C02), completeness of the beacon node's duties.",
 		Technique:   "guard/edge-deletion queries with relation sets, provenance of ScheduleJob arguments and of closure captures, string-table extraction and agreement (writer vs readers of job names), dominance of cancel loops, lock-set dataflow, index-space analysis",
 		Rule:        "one obligation per duty-job site and filter (a), per ScheduleJob call (b,c), per name format use (d), per refresh function (e), per tracking field/handler (f), per epoch-ticker step (g), per start-up scheduling call (h), per fork-detail function (i)",
 		Assumptions: []string{"job names are built with fmt.Sprintf from constant formats (true on this tree; a non-constant name makes the check fail as undecided)"},
